@@ -318,8 +318,32 @@ func roundTrip(work string, c *ld.Case, formats ...string) outcome {
 		})
 		out.preRendered = true
 	}
+	// every format is rendered first and the bytes are held while the other renderings are made:
+	// a rendering belongs to its caller from the moment it is returned
+	type rendering struct {
+		b   []byte
+		err error
+		pi  *core.PanicInfo
+	}
+	held := map[string]rendering{}
+	for _, format := range formats {
+		var r rendering
+		f := format
+		r.pi = core.Guard(func() {
+			if f == "yaml" {
+				r.b, r.err = p.MarshalYAML()
+			} else {
+				r.b, r.err = p.MarshalJSON()
+			}
+		})
+		held[format] = r
+	}
 	for _, format := range formats {
 		render := func(q *types.Project) (b []byte, err error, pi *core.PanicInfo) {
+			if q == p {
+				h := held[format]
+				return h.b, h.err, h.pi
+			}
 			pi = core.Guard(func() {
 				if format == "yaml" {
 					b, err = q.MarshalYAML()
